@@ -33,7 +33,7 @@ theorem mapAux_cons_in (pos a : Int) (r : Range) (rest : List Range) (diff : Int
   rfl
 
 /-- strictly after a range the scan goes on, whatever the side -/
-theorem mapAux_cons_after (pos a : Int) (r : Range) (rest : List Range) (diff : Int) (idx : Nat)
+theorem mapAux_cons_past (pos a : Int) (r : Range) (rest : List Range) (diff : Int) (idx : Nat)
     (h : r.1 + r.2.1 < pos) (h0 : 0 ≤ r.2.1) :
     mapAux false pos a (r :: rest) diff idx = mapAux false pos a rest (diff + r.2.2 - r.2.1) (idx + 1) :=
   mapAux_cons_gt pos a r rest diff idx h h0
